@@ -677,6 +677,22 @@ func genC07(r *Rng, e *Emitter, n int) {
 		switch r.Intn(10) {
 		case 0, 1, 2:
 			t := r.gjTree(2)
+			// sometimes every ordinate is a whole number (of any magnitude): then limiting the decimal
+			// digits written changes no value, and encoding with that option must round-trip as well
+			whole := r.chance(1, 4)
+			digits := r.Intn(18)
+			if whole {
+				scale := math.Ldexp(1, []int{0, 0, 10, 60, 200, 700, 990}[r.Intn(7)])
+				t.eachCoord(func(c geom.Coord) {
+					for k := range c {
+						if v := math.Trunc(c[k]) * scale; !math.IsInf(v, 0) {
+							c[k] = v
+						} else {
+							c[k] = math.Trunc(c[k])
+						}
+					}
+				})
+			}
 			in := t.sx()
 			e.pending("C07.geom", in)
 			var text []byte
@@ -694,6 +710,17 @@ func genC07(r *Rng, e *Emitter, n int) {
 				return "(ok " + sxRaw(g2) + ")"
 			})
 			ed := guard(func() string {
+				if whole {
+					b, err := geojson.Marshal(t.build(), geojson.EncodeGeometryWithMaxDecimalDigits(digits))
+					if err != nil {
+						return sxGeoErr(err)
+					}
+					var g3 geom.T
+					if err := geojson.Unmarshal(b, &g3); err != nil {
+						return sxGeoErr(err)
+					}
+					return "(ok " + sxRaw(g3) + ")"
+				}
 				gg, err := geojson.Encode(t.build())
 				if err != nil {
 					return sxGeoErr(err)
@@ -805,4 +832,29 @@ func genC07(r *Rng, e *Emitter, n int) {
 		}
 	}
 	_ = math.Pi
+}
+
+// eachCoord visits every coordinate of the tree (in place).
+func (t *gtree) eachCoord(f func(geom.Coord)) {
+	if t.pt != nil {
+		f(t.pt)
+	}
+	for _, c := range t.c1 {
+		f(c)
+	}
+	for _, cs := range t.c2 {
+		for _, c := range cs {
+			f(c)
+		}
+	}
+	for _, css := range t.c3 {
+		for _, cs := range css {
+			for _, c := range cs {
+				f(c)
+			}
+		}
+	}
+	for _, m := range t.members {
+		m.eachCoord(f)
+	}
 }
